@@ -17,6 +17,7 @@ NoExtras == {}
 ScaleOnly == {"scale"}
 AllExtras == {"scale", "saveload"}
 InsertOnly == {"insert"}
+ResetOnly == {"reset"}
 OneThick == {8}
 Media2 == {"air", "n15"}
 StdOnly == {"std"}
